@@ -178,22 +178,46 @@ def _compute_entrypoints(
         if not _is_cyclic_scc(scc, data_graph):
             continue
 
+        scc_entrypoints: dict[str, tuple[str, ...]] = {}
+        seeded_by_binding = False
         for node_name in sorted(scc):  # sorted for deterministic order
             node = nodes[node_name]
             if isinstance(node, GateNode):
                 continue  # Gates control cycles, not start them
 
             # Params this node needs that are cycle-produced
-            # (minus bound, minus interrupt-produced, minus defaulted)
-            needed = tuple(
-                p
-                for p in node.inputs
-                if p in cycle_params and p not in bound and not _is_interrupt_produced(p, nodes) and not node.has_default_for(p)
-            )
+            # (minus interrupt-produced, minus defaulted)
+            cycle_inputs = tuple(p for p in node.inputs if p in cycle_params and not _is_interrupt_produced(p, nodes) and not node.has_default_for(p))
+            needed = tuple(p for p in cycle_inputs if p not in bound)
+            if cycle_inputs and not needed:
+                # Every cycle param of this node is bound: the binding already
+                # bootstraps the cycle here, no entry point has to be provided
+                seeded_by_binding = True
             if needed:  # Only include if node needs user-provided cycle params
-                entrypoints[node_name] = needed
+                scc_entrypoints[node_name] = needed
+
+        if not seeded_by_binding:
+            entrypoints.update(scc_entrypoints)
 
     return entrypoints
+
+
+def bound_cycle_params(
+    nodes: dict[str, HyperNode],
+    nx_graph: nx.DiGraph,
+    bound: dict[str, Any],
+) -> set[str]:
+    """Bound names that flow within a cycle.
+
+    A bound cycle param seeds the cycle exactly like a provided entry point
+    param does. Validation must not mistake it for an injected intermediate
+    value (which would bypass its producer).
+    """
+    if not bound:
+        return set()
+    edge_produced = get_edge_produced_values(nx_graph)
+    cycle_params = _get_all_cycle_params(nodes, _data_only_subgraph(nx_graph), edge_produced)
+    return {p for p in bound if p in cycle_params}
 
 
 def _is_cyclic_scc(scc: set[str], graph: nx.DiGraph) -> bool:
